@@ -76,10 +76,10 @@ class Fancy(Plain):
     def delim(self): return self.sp() + "," + self.sp()
     def lead(self): return self.r.choice(["  ", "\t", " ", "    "])
     def tail(self): return self.r.choice(["", "", " ; note", "\t;", " // c", "  /* c */", ";x", " ;;", " /**/", " /* 2*3 */", " /** doc */", " /* x **/",
-                                          " /***/", " /* a / b */", " /* ; // */", " ; /* open", " // */ x", " /* \" */"])
+                                          " /***/", " /* a / b */", " /* ; // */", " ; /* open", " // */ x", " /* \" */", " ; ends with a backslash \\", " // C:\\dir\\", " ;\\", " ; \\\\ "])
     def mid(self): return self.r.choice([" ", "\t", "  "])
     def between(self): return self.r.choice([[], [], [""], ["; full line"], ["  // another"], ["\t"], ["/* block */"], ["", ";"], ["/* 1*2*3 */"], ["/****/"],
-                                             ["  /* * */"], ["; .endif .else .if 0"], ["// .macro x"]])
+                                             ["  /* * */"], ["; .endif .else .if 0"], ["// .macro x"], ["; continued? \\"], ["// \\"]])
 
 
 REGS = ["r0", "r5", "r16", "r17", "r30"]
